@@ -340,12 +340,26 @@ func stUpdateAlloc(h *Hist, r *mon.Rand) *Call {
 				in["set_third_party_extendable"] = true
 				newOwner = nil
 			}
+			if r.Chance(0.5) {
+				val = 1e9 + uint64(r.Intn(5))*1e10 // the hand-over also locks tokens: they are the SENDER's
+			}
 		case "third-party-extend":
 			from = h.stClient(r)
 			in["extend"] = true
 			val = full + 1e9
 			if !v.ThirdPartyExtendable && from.ID != v.Owner {
 				mut = "third-party-not-allowed"
+			}
+			if r.Chance(0.5) {
+				// the request names the allocation's owner (or any other funded wallet) in its owner_id field: whoever is named,
+				// the tokens locked by the transaction are the sender's
+				named := v.Owner
+				if r.Chance(0.3) {
+					named = h.stClient(r).ID
+				}
+				if w := h.W.Wallets[named]; w != nil {
+					in["owner_id"], in["owner_public_key"] = w.ID, w.PubKey
+				}
 			}
 		}
 		if r.Chance(0.3) {
